@@ -121,12 +121,17 @@ func checkC17(c *Ctx) {
 			if g.Common().StaticCallee() == nil {
 				// started from a table of functions walked by a loop: once per slot holding the processor
 				k := 0
-				for _, b := range g.Parent().Blocks {
+				tableBlocks := append([]*ssa.BasicBlock(nil), g.Parent().Blocks...)
+				if r.Launcher == g.Parent() {
+					// handed to the launching helper by start, once per call
+					tableBlocks = append(tableBlocks, r.Start.Blocks...)
+				}
+				for _, b := range tableBlocks {
 					for _, in := range b.Instrs {
 						if mc, ok := in.(*ssa.MakeClosure); ok {
 							if w, ok := mc.Fn.(*ssa.Function); ok && strings.HasSuffix(w.Name(), "$bound") && boundMethod(w) == r.Processor {
 								k++
-								if ir.InnermostLoop(ir.Loops(g.Parent()), b) != nil {
+								if ir.InnermostLoop(ir.Loops(b.Parent()), b) != nil {
 									inLoop = true
 								}
 							}
